@@ -1416,9 +1416,9 @@ fn open_resp_slot(sp: &SlotSpec, r: usize, a: usize, addr: SocketAddr, be_addr: 
                 thread::sleep(Duration::from_millis(2));
             }
         }
-        // half of the time, let the stream buffer drain into the TLS layer: the tail is then held by the TLS
+        // in one of two scenarios, let the stream buffer drain into the TLS layer: the tail is then held by the TLS
         // layer alone (no stream has anything left to forward)
-        let drain = spec.n % 2 == 0;
+        let drain = sp.big_first; // the two tcp-stalled scenarios of a quick run have opposite stream orders: one of each kind
         if drain && !gone {
             for _ in 0..14 {
                 let _ = h2_pump_raw(&mut c, &mut ctx.h2, 2048);
